@@ -82,6 +82,7 @@ var sappErrExtra = []struct {
 	{regexp.MustCompile(`^settlement (resulted in unexpected partial order|unexpectedly resulted in all orders fully filled)`), "expectpartial"},
 	{regexp.MustCompile(`no seller settlement fee ratio found`), "ratiolookup"},
 	{regexp.MustCompile(`^price .* is not more than (total required )?seller settlement`), "price_not_above_fees"},
+	{regexp.MustCompile(`insufficient funds`), "funds"},
 }
 
 func sappErrClass(err error) string {
@@ -546,7 +547,7 @@ func (g *sappGen) round() {
 	nA, nB := 1+r.Intn(3), 1+r.Intn(3)
 	owner := func(ask bool, i int) string {
 		if r.Chance(30) {
-			return Pick(r, g.e.accts)
+			return Pick(r, g.e.accts[:7]) // P1, P2 (partly funded) never own an order
 		}
 		if ask {
 			return fmt.Sprintf("S%d", 1+i%3)
@@ -729,6 +730,13 @@ func (g *sappGen) settle(askIDs, bidIDs []uint64) {
 func (g *sappGen) fillBids(bidIDs []uint64) {
 	r := g.r
 	seller := Pick(r, []string{"S1", "S2", "X1", "B1"})
+	if r.Chance(30) {
+		// a seller that cannot cover every send of the message: P1 has the assets but no fig (a fig fee is
+		// refused AFTER both transfers ran; a usd fee is paid out of the price just received), P2 has no
+		// assets (the first transfer is refused, the keeper goes on with the others and fails at the end)
+		seller = Pick(r, []string{"P1", "P1", "P2"})
+		g.out.Count("app:poor-filler:" + seller)
+	}
 	total := new(big.Int)
 	for _, id := range bidIDs {
 		total.Add(total, g.open[id].assets)
@@ -747,6 +755,12 @@ func (g *sappGen) fillBids(bidIDs []uint64) {
 func (g *sappGen) fillAsks(askIDs []uint64) {
 	r := g.r
 	buyer := Pick(r, []string{"B1", "B2", "X1", "S1"})
+	if r.Chance(30) {
+		// P2 can pay the price but no fig fee (refused after both transfers); P1 cannot pay the price (the
+		// price transfer is refused after the assets already moved to it)
+		buyer = Pick(r, []string{"P2", "P2", "P1"})
+		g.out.Count("app:poor-filler:" + buyer)
+	}
 	total := new(big.Int)
 	for _, id := range askIDs {
 		total.Add(total, g.open[id].price)
@@ -788,11 +802,17 @@ func driveSettleApp(t *testing.T, rng *RNG, n int, out *Out) {
 		}
 		split := fmt.Sprintf("usd:%d,fig:%d", []int{0, 1, 500, 5000, 10000}[rng.Intn(5)], []int{0, 250, 10000}[rng.Intn(3)])
 		out.Count("app:ratio:" + strings.SplitN(ratio, "usd", 2)[0][:1])
-		g.emit(fmt.Sprintf("init accts=S1,S2,S3,B1,B2,B3,X1 ratio=%s split=%s dflt=%d", ratio, split, []int{0, 500}[rng.Intn(2)]))
+		g.emit(fmt.Sprintf("init accts=S1,S2,S3,B1,B2,B3,X1,P1,P2 ratio=%s split=%s dflt=%d", ratio, split, []int{0, 500}[rng.Intn(2)]))
 		big1 := new(big.Int).Exp(big.NewInt(10), big.NewInt(40), nil)
 		big2 := new(big.Int).Exp(big.NewInt(10), big.NewInt(60), nil)
 		for _, a := range e.accts {
 			op := fmt.Sprintf("fund %s %sapple,%sfig,%susd,%szed", a, big1, big1, big2, big1)
+			switch a {
+			case "P1": // can deliver assets, owns nothing to pay a price or a fee with
+				op = fmt.Sprintf("fund P1 %sapple", big1)
+			case "P2": // can pay a price, owns no assets and nothing else to pay a fee with
+				op = fmt.Sprintf("fund P2 %susd", big2)
+			}
 			g.out.Emit(op, e.exec(op))
 		}
 		g.out.Emit("dump", e.exec("dump"))
